@@ -300,10 +300,18 @@ def _load(prop):
 
 def _worker(prop, tier, seed, shard, nshards, out):
     try:
+        # one core per worker: XLA sizes its compile/runtime thread pools from the affinity mask, and 16 workers
+        # with 16-thread pools each spend most of their time in the kernel
+        try:
+            cpus = sorted(os.sched_getaffinity(0))
+            os.sched_setaffinity(0, {cpus[shard % len(cpus)]})
+        except Exception:  # noqa: BLE001
+            pass
         from harness import env  # noqa: F401
 
         mod = _load(prop)
         ctx = Ctx(prop, tier, seed, shard, nshards)
+        _run_corpus(ctx, mod)
         mod.run_shard(ctx)
         res = ctx.result()
         res["ok"] = True
@@ -312,6 +320,28 @@ def _worker(prop, tier, seed, shard, nshards, out):
     with open(out, "w") as f:
         f.write(canon(res))
     return 0 if res.get("ok") else 2
+
+
+def _run_corpus(ctx, mod):
+    """Seconds-long replay tier: hand-curated / previously-failing cases, run before any generated case."""
+    cdir = os.path.join(VERIF, "corpus", ctx.prop)
+    if not os.path.isdir(cdir):
+        return
+    from harness import env
+
+    files = sorted(f for f in os.listdir(cdir) if f.endswith(".json"))
+    for i, fn in enumerate(files):
+        if i % ctx.nshards != ctx.shard:
+            continue
+        rec = json.load(open(os.path.join(cdir, fn)))
+        case = rec["case"] if isinstance(rec, dict) and "case" in rec else rec
+        env.reset()
+        fails = mod.replay(case)
+        ctx.evaluations += 1
+        ctx.count("corpus_cases")
+        ctx.hashes.add(h64(case))
+        for b, w in fails:
+            ctx.fail(b, f"[corpus {fn}] {w}", case)
 
 
 def _replay(prop, path):
@@ -430,6 +460,22 @@ def _merge_and_report(prop, tier, seed, results, wall, plan):
             fail_counts[b] = fail_counts.get(b, 0) + n
 
     known = load_known(prop)
+    # buckets "name|f1+f2": the same check failing on programs with feature sets; keep only minimal feature sets
+    # per name (a failure on {cond} explains the ones on {cond,scan}); known findings are matched first.
+    def _split(b):
+        name, _, fs = b.partition("|")
+        return name, frozenset(x for x in fs.split("+") if x)
+    unknown = [b for b in failures if "|" in b and not known_match(known, b)]
+    suppressed = {}
+    for b in unknown:
+        n, fs = _split(b)
+        for b2 in unknown:
+            n2, fs2 = _split(b2)
+            if b2 != b and n2 == n and fs2 < fs:
+                suppressed[b] = b2
+                break
+    for b in suppressed:
+        failures.pop(b)
     violations, known_hits = [], []
     os.makedirs(os.path.join(VERIF, "replays", prop), exist_ok=True)
     for b in sorted(failures):
@@ -465,7 +511,9 @@ def _merge_and_report(prop, tier, seed, results, wall, plan):
             "excluded_by_known_finding": sum(r["excluded_known"] for r in results),
             "known_findings_hit": [{"bucket": b, "count": n} for b, _, n in known_hits],
             "violation_buckets": [{"bucket": b, "count": n, "replay": p} for b, p, _, n in violations],
+            "nonminimal_buckets_folded": [{"bucket": b, "into": b2} for b, b2 in sorted(suppressed.items())],
             "shards": len(results),
+            "shard_wall_s": [round(r["wall_s"], 1) for r in results],
             "exhaustive": bool(meta.get("exhaustive", False)) and plan.get("exhaustive", False),
             "notes": [n for r in results for n in r.get("notes", [])][:20],
         },
